@@ -218,8 +218,36 @@ void des_fail(const char *sig, const char *fmt, ...)
     va_start(ap, fmt);
     vsnprintf(detail, sizeof detail, fmt, ap);
     va_end(ap);
-    vx_violation(sig, "t=%g: %s", cmb_time(), detail);
+    const char *ctx = "";
+    char ctxbuf[700];
+    for (int p = 0; p < D.P; p++) {
+        if (D.residue[p].active) {
+            snprintf(ctxbuf, sizeof ctxbuf, " [this confirms the residue noted earlier: %s: %s]", D.residue[p].sig,
+                     D.residue[p].detail);
+            ctx = ctxbuf;
+            D.residue[p].confirmed++;
+            break;
+        }
+    }
+    vx_violation(sig, "t=%g: %s%s", cmb_time(), detail, ctx);
     D.abandon = true;
+}
+
+void des_residue(int p, const char *sig, const char *fmt, ...)
+{
+    if (D.residue[p].active) {
+        return;
+    }
+    va_list ap;
+    va_start(ap, fmt);
+    vsnprintf(D.residue[p].detail, sizeof D.residue[p].detail, fmt, ap);
+    va_end(ap);
+    snprintf(D.residue[p].sig, sizeof D.residue[p].sig, "%s", sig);
+    D.residue[p].active = true;
+    D.residue[p].confirmed = 0;
+    vx_counter(0, 1);
+    vx_trace("  [t=%g] residue noted for P%d (%s): %s -- P%d now runs sentinel waits only\n", cmb_time(), p, sig,
+             D.residue[p].detail, p);
 }
 
 int des_pidx(const struct cmb_process *pp)
@@ -511,7 +539,8 @@ static uint64_t canon_hash(void)
                 h = vx_mix(h, vx_hash_bytes((uint64_t)(p * 8 + k), &tt, 8));
             }
         }
-        h = vx_mix(h, (uint64_t)D.resume_pending[p] * 2 + (uint64_t)(D.pq_handle[p] != 0));
+        h = vx_mix(h, (uint64_t)D.resume_pending[p] * 2 + (uint64_t)(D.pq_handle[p] != 0)
+                          + (uint64_t)D.residue[p].active * 4);
     }
     for (int k = 0; k < NENVEV; k++) {
         h = vx_mix(h, (uint64_t)(D.envev[k] != 0 && cmb_event_is_scheduled(D.envev[k])));
@@ -870,6 +899,42 @@ static int64_t do_op(int p, const struct opdef *od)
     return ret;
 }
 
+/*
+ * Semantic confirmation of a residue: the process does nothing but wait in a sentinel call that nothing
+ * legitimate should end before t+1000 (except notifications the monitor knows about, after which the
+ * sentinel is re-issued). The kinds of sentinel are enumerated (free choice): a long hold, a bare yield
+ * and a wait on a condition whose predicate is never true (both behind a long timer). If the residue can
+ * resume the process, the monitor's ordinary rules about unjustified returns report it.
+ */
+static void confirm_residue(int p)
+{
+    static const struct opdef od_hold = { "hold1000", K_HOLD, 1000, 0 };
+    static const struct opdef od_tadd = { "tadd1000", K_TADD, 1000, 0 };
+    static const struct opdef od_yield = { "yield", K_YIELD, 0, 0 };
+    static const struct opdef od_cwait = { "cwait9", K_CWAIT, 9, 0 };
+    const int ns = D.has_cond ? 3 : 2;
+    const int s = vx_choose_free(ns, "sentinel");
+    const double horizon = cmb_time() + 1000.0;
+    for (int round = 0; round < 6 && !D.abandon && cmb_time() < horizon; round++) {
+        if (s == 0) {
+            if (do_op(p, &od_hold) == CMB_PROCESS_SUCCESS) {
+                break;
+            }
+        }
+        else {
+            if (round == 0) {
+                (void)do_op(p, &od_tadd);
+            }
+            (void)do_op(p, s == 1 ? &od_yield : &od_cwait);
+        }
+    }
+    if (!D.abandon && D.residue[p].confirmed == 0) {
+        D.inert_residues++;
+        vx_counter(1, 1);
+        vx_trace("  [t=%g] residue of P%d was inert: its sentinel waits ended undisturbed\n", cmb_time(), p);
+    }
+}
+
 static void *proc_body(struct cmb_process *me, void *ctx)
 {
     const int p = (int)(intptr_t)ctx;
@@ -885,6 +950,10 @@ static void *proc_body(struct cmb_process *me, void *ctx)
     }
     MON(on_body_enter, p);
     while (D.budget[p] > 0 && !D.abandon) {
+        if (D.residue[p].active) {
+            confirm_residue(p);
+            break;
+        }
         const struct opdef *menu[MAXMENU + 1];
         int nm = 0;
         const struct opdef *first = NULL;
@@ -975,6 +1044,8 @@ static void run_one(void)
     D.envev[0] = D.envev[1] = 0;
     D.rec_state = 0;
     memset(D.res_belief, 0, sizeof D.res_belief);
+    memset(D.residue, 0, sizeof D.residue);
+    D.inert_residues = 0;
 
     cmb_event_queue_initialize(0.0);
     for (int r = 0; r < D.nres; r++) {
